@@ -412,5 +412,38 @@ def intOfStr (s : Str) : Except Exc Int :=
   | '-' :: r => intOfBody true r
   | '+' :: r => intOfBody false r
   | r => intOfBody false r
+/-! ### objects with mutable attributes (harness/py2lean_state.py, worker w5-codersrc)
+
+  `None`-or-list values are `Option (List α)`.  A value `functools.partial(next, iter(xs))` (a callable that
+  returns the next item of `xs` at every call) is represented by the items it has not returned yet, `some rest`;
+  the attribute that holds it may also hold `None`.  Assumption: the list `xs` is not mutated while the iterator
+  is alive (in `coder.py` the list `bitmapped_descriptors` is only ever re-bound, never mutated in place). -/
+
+/-- truth value of a `None`-or-list: `None` and the empty list are false -/
+def truthyOptList {α : Type} : Option (List α) → Bool
+  | none => false
+  | some l => !l.isEmpty
+
+/-- `functools.partial(next, iter(x))` for a `None`-or-list `x`: `iter(None)` raises `TypeError` -/
+def iterOpt {α : Type} : Option (List α) → Except Exc (Option (List α))
+  | none => .error .typeError
+  | some l => .ok (some l)
+
+/-- `f()` where `f` is `None` (`TypeError`: 'NoneType' object is not callable) or `functools.partial(next, it)`:
+    the next item and the callable afterwards, or `StopIteration` -/
+def callNext {α : Type} : Option (List α) → Except Exc (α × Option (List α))
+  | none => .error .typeError
+  | some [] => .error (.raised "StopIteration")
+  | some (x :: rest) => .ok (x, some rest)
+
+/-- `xs.pop()` as a statement (the popped item is discarded): the list without its last item; `IndexError` on `[]` -/
+def listPop {α : Type} (xs : List α) : Except Exc (List α) :=
+  if xs.isEmpty then .error .indexError else .ok xs.dropLast
+
+/-- `a ** b` on ints with an exponent not known to be non-negative: a negative exponent gives a float, which is
+    outside the modelled subset and reported as an error value (so no theorem `= .ok _` can be proved about it) -/
+def powInt (a b : Int) : Except Exc Int :=
+  if b < 0 then .error (.raised "py2lean: ** with a negative exponent (float result) is outside the modelled subset")
+  else .ok (a ^ b.toNat)
 
 end Py
